@@ -2,7 +2,7 @@
    Strings are groups of character codes.  A counted string inside a group is  n; c1..cn.
    Matrix encoding (groups in this order; a frame group is followed by what belongs to it):
      [1; uid; id; ext; size; fd; pay; <name>; nattrs; k1; v1; ...; nrecv; <r1>; ...]      a frame
-     [2; uid; start; size; is_mux; mux_val (-1 = None); pay; <name>; nrecv; <r1>; ...]    a signal of that frame
+     [2; uid; start; size; le; is_mux; mux_val (-1 = None); pay; <name>; nrecv; <r1>; ...] a signal of that frame
      [5; id; <name>; member uids ...]                                                      a signal group of that frame
      [3; id; size; <name>]                                                                 a PDU of that frame
      [4; ... as 2 ...]                                                                     a signal of that PDU
@@ -35,15 +35,11 @@ Definition put_str (s : str) : list Z := Z.of_nat (length s) :: s.
 Definition put_strs (l : list str) : list Z := Z.of_nat (length l) :: flat_map put_str l.
 
 Definition sig_of (g : list Z) : csignal :=      (* g without the tag *)
-  let (nm, r) := take_str (skipn 6 g) in
+  let (nm, r) := take_str (skipn 7 g) in
   let nrecv := Z.to_nat (nthz r 0) in
   let (rs, _) := take_strs (length r) nrecv (skipn 1 r) in
-  mkCSig (nthz g 0) nm (nthz g 1) (nthz g 2) rs (zb (nthz g 3)) (optz (nthz g 4)) (nthz g 5).
-Definition sig_out (tag : Z) (s : csignal) : list Z :=
-  tag :: cs_uid s :: cs_start s :: cs_size s :: bz (cs_is_mux s) :: oz (cs_mux_val s) :: cs_pay s ::
-  put_str (cs_name s) ++ put_strs (cs_receivers s).
+  mkCSig (nthz g 0) nm (nthz g 1) (nthz g 2) (zb (nthz g 3)) rs (zb (nthz g 4)) (optz (nthz g 5)) (nthz g 6).
 Definition group_of (g : list Z) : cgroup := let (nm, r) := take_str (skipn 1 g) in mkCGroup nm (nthz g 0) r.
-Definition group_out (x : cgroup) : list Z := 5 :: g_id x :: put_str (g_name x) ++ g_members x.
 Definition pdu_of (g : list Z) (ss : list csignal) : cpdu :=
   let (nm, _) := take_str (skipn 2 g) in mkCPdu nm (nthz g 0) (nthz g 1) ss.
 Definition frame_of (g : list Z) (ss : list csignal) (gs : list cgroup) (ps : list cpdu) : cframe :=
@@ -68,12 +64,24 @@ Definition dec_step (g : list Z) (st : dec) : dec :=
 Definition matrix_of (gs : io) : cmatrix :=
   mkCMatrix (d_frames (fold_right dec_step (mkDec [] [] [] [] []) gs)) 0.
 
+(* answers are written WITHOUT object identities (they are not comparable across Python's deep copies): the uid is left
+   out of frame and signal groups, the members of a signal group are positions in the frame's signal list (-1: elsewhere) *)
+Definition sig_ans (tag : Z) (s : csignal) : list Z :=
+  tag :: cs_start s :: cs_size s :: bz (cs_le s) :: bz (cs_is_mux s) :: oz (cs_mux_val s) :: cs_pay s ::
+  put_str (cs_name s) ++ put_strs (cs_receivers s).
+Fixpoint pos_of_uid (u : Z) (l : list csignal) (i : Z) : Z :=
+  match l with
+  | [] => -1
+  | s :: r => if cs_uid s =? u then i else pos_of_uid u r (i + 1)
+  end.
+Definition group_ans (ss : list csignal) (x : cgroup) : list Z :=
+  5 :: g_id x :: put_str (g_name x) ++ map (fun u => pos_of_uid u ss 0) (g_members x).
 Definition pdu_groups (p : cpdu) : io :=
-  (3 :: p_id p :: p_size p :: put_str (p_name p)) :: map (sig_out 4) (p_signals p).
+  (3 :: p_id p :: p_size p :: put_str (p_name p)) :: map (sig_ans 4) (p_signals p).
 Definition frame_groups (f : cframe) : io :=
-  (1 :: cf_uid f :: cf_id f :: bz (cf_ext f) :: cf_size f :: bz (cf_fd f) :: cf_pay f ::
+  (1 :: cf_id f :: bz (cf_ext f) :: cf_size f :: bz (cf_fd f) :: cf_pay f ::
      put_str (cf_name f) ++ Z.of_nat (length (cf_attrs f)) :: flat_pairs (cf_attrs f) ++ put_strs (cf_receivers f))
-  :: map (sig_out 2) (cf_signals f) ++ map group_out (cf_groups f) ++ flat_map pdu_groups (cf_pdus f).
+  :: map (sig_ans 2) (cf_signals f) ++ map (group_ans (cf_signals f)) (cf_groups f) ++ flat_map pdu_groups (cf_pdus f).
 Definition matrix_out (m : cmatrix) : io := flat_map frame_groups (cm_frames m).
 Definition answer (o : option cmatrix) : io := match o with None => [[0]] | Some m => [1] :: matrix_out m end.
 
